@@ -36,6 +36,7 @@ ClassOK(h, v, placeholder) ==
                              /\ FMag(v) - FMag(placeholder) <= h.a /\ FMag(placeholder) - FMag(v) <= h.a)
     [] h.c = "len"    -> Len(v) = h.a
     [] h.c = "oneof"  -> v = h.a \/ v = h.b
+    [] h.c = "constvec" -> Len(v) = h.a /\ \A i \in 1..Len(v) : v[i] = h.b
     [] h.c = "member" -> \E i \in 1..Len(h.a) : h.a[i] = v
     [] h.c = "randcode" -> /\ Size(v) >= 1 /\ Size(v) <= h.a - 1
                            /\ \A i \in 1..Len(Points(v)) :
